@@ -3,7 +3,7 @@
    Model/Resolve.v records and [type_ok]/[func_ok]/[qual_ok]) and the observation; none of them
    calls the dynamic model (do_get / run), so a defect shared by model and code is still seen. *)
 From Coq Require Import List Arith Bool ZArith.
-From IocVerif Require Import Model.App Corr.Wiring.
+From IocVerif Require Import Model.App Model.FactoryX Corr.Wiring.
 Import ListNotations.
 
 Section Oracles.
@@ -11,6 +11,14 @@ Section Oracles.
   Let s := w_scn c.
   Let pop := s_pop s.
   Let o := w_obs c.
+  Let x := w_x c.
+
+  (* injection points only: what a component's Init looked up by itself (pseudo-fields 100, 101, ... of cases with
+     extras) is not a "holder" of C01/C03 — it is compared with the model, not judged by the oracles *)
+  Definition point_fields : list ((name * nat) * list ver) :=
+    filter (fun f => snd (fst f) <? 100) (ob_fields o).
+  (* n can be handed to the container by a short-circuiting post-processor (then it has no lifecycle of its own) *)
+  Definition short_target (n : name) : bool := existsb (fun pn => Nat.eqb (snd pn) n) (x_short x).
 
   Definition comp_at (n : name) : option comp := get_comp pop n.
   Definition all_names : list name := names_of pop.
@@ -81,7 +89,7 @@ Section Oracles.
         forallb (fun v => match lookup_of c (owner v) with
                           | Some (LTVer v') => ver_eqb v v'
                           | _ => false
-                          end) (snd f)) (ob_fields o)
+                          end) (snd f)) point_fields
     else true.
 
   (* ---- never a panic / crash / hang --------------------------------------------------------------- *)
@@ -90,7 +98,7 @@ Section Oracles.
 
   (* ---- never wired to itself ----------------------------------------------------------------------- *)
   Definition oracle_never_self : bool :=
-    forallb (fun f => forallb (fun v => negb (is_self (fst (fst f)) v)) (snd f)) (ob_fields o).
+    forallb (fun f => forallb (fun v => negb (is_self (fst (fst f)) v)) (snd f)) point_fields.
 
   (* ---- per-point soundness/completeness for eagerly created, fully processed holders ------------ *)
   Definition checked_holder (h : name) : bool := eager h && negb (is_proc h).
@@ -247,8 +255,16 @@ Section Oracles.
 
   Definition whole_log : list event := ob_log o ++ ob_logafter o.
 
+  Fixpoint nodup_names (l : list name) : bool :=
+    match l with [] => true | a :: r => negb (mem a r) && nodup_names r end.
+
+  (* a short-circuited component: after-initialization callbacks only, each processor once *)
+  Definition short_shape (l : list event) : bool :=
+    forallb (fun e => match e with EvAfter _ _ => true | _ => false end) l && nodup_names (afters l).
+
   Definition lifecycle_ok (n : name) : bool :=
     let l := sublog (ob_log o) n in
+    (short_target n && short_shape l) ||
     stages_monotone l
     && list_eqb Nat.eqb (befores l) (afters l)
     && (count_ev (is_init_of n) l <=? 1) && (count_ev (is_aps_of n) l <=? 1)
@@ -275,7 +291,8 @@ Section Oracles.
      component is created on behalf of the holder, so it counts as an edge for "depends back" *)
   Definition succs (n : name) : list name :=
     flat_map (fun kp => providers n (snd kp)
-                        ++ match pt_sel (snd kp) with SByName (Some m) => [m] | _ => [] end) (points_of n).
+                        ++ match pt_sel (snd kp) with SByName (Some m) => [m] | _ => [] end) (points_of n)
+    ++ initget_of x n.                 (* what n's Init asks the factory for is requested by n *)
 
   Fixpoint reach (fuel : nat) (frontier seen : list name) : list name :=
     match fuel with
@@ -303,7 +320,7 @@ Section Oracles.
                | Some cd => match c_init cd with
                             | Some _ => match index_of (is_init_of d) (ob_log o) 0 with
                                         | Some j => j <? i
-                                        | None => false
+                                        | None => short_target d   (* handed over by a short-circuiting processor: it has no Init of its own *)
                                         end
                             | None => true
                             end
@@ -325,7 +342,8 @@ Section Oracles.
                   ++ match pt_sel (snd kp) with SByName (Some m) => [m] | _ => [] end
                   ++ (if blocked n (snd kp) then providers n (snd kp) else [])
                 else providers n (snd kp))         (* App.ApplicationRunners: cleared after the start *)
-             (raw_points_of n).
+             (raw_points_of n)
+    ++ initget_of x n.
   Fixpoint reach_held (fuel : nat) (frontier seen : list name) : list name :=
     match fuel with
     | 0 => seen
